@@ -294,6 +294,18 @@ static int do_cstep(void *p) {
     x->why[0] = 0;
 #define BAD(...) do { snprintf(x->why, sizeof x->why, __VA_ARGS__); return 1; } while (0)
     if (!strcmp(op, "push")) { c_push(c, v); return 0; }
+    if (!strcmp(op, "push_own")) {       /* (array_push a (at a i)) on an array<struct> */
+        void *src = dyn_array_get_struct(c->a, i);
+        if (!src) BAD("get_struct in range returned NULL");
+        dyn_array_push_struct(c->a, src, sizeof(SVal));
+        return 0;
+    }
+    if (!strcmp(op, "set_own")) {        /* x[i] = x[i] */
+        if (c->li) list_int_set(c->li, (int)i, list_int_get(c->li, (int)i));
+        else if (c->ls) list_string_set(c->ls, (int)i, list_string_get(c->ls, (int)i));
+        else BAD("set_own on a dyn_array");
+        return 0;
+    }
     if (!strcmp(op, "clear")) {
         if (c->li) list_int_clear(c->li); else if (c->ls) list_string_clear(c->ls); else dyn_array_clear(c->a);
         return 0;
